@@ -56,6 +56,7 @@ type Ctx struct {
 	reg      *registry
 	tmpl     *fontTmpl
 	roles    map[string]string
+	ren      *renameMap
 }
 
 func (c *Ctx) load() {
@@ -118,6 +119,7 @@ func (c *Ctx) load() {
 		return a.String() < b.String()
 	})
 	c.nfuncs = len(c.modFuncs)
+	feCtx = c
 }
 
 // inModule reports whether fn belongs to a library package of the module
@@ -164,7 +166,7 @@ func (c *Ctx) spkg(short string) *ssa.Package {
 
 // fn resolves a package-level function.
 func (c *Ctx) fn(pkg, name string) *ssa.Function {
-	f := c.spkg(pkg).Func(name)
+	f := c.fnOpt(pkg, name)
 	if f == nil {
 		abort("anchor: function %s.%s not found", pkg, name)
 	}
@@ -172,7 +174,16 @@ func (c *Ctx) fn(pkg, name string) *ssa.Function {
 }
 
 func (c *Ctx) fnOpt(pkg, name string) *ssa.Function {
-	return c.spkg(pkg).Func(name)
+	if f := c.spkg(pkg).Func(name); f != nil {
+		return f
+	}
+	if recv, nm, ok := c.curFunc(pkg, "", name); ok {
+		if recv == "" {
+			return c.spkg(pkg).Func(nm)
+		}
+		return c.methodByName(pkg, recv, nm)
+	}
+	return nil
 }
 
 // method resolves a method (pointer or value receiver) of a named type.
@@ -185,6 +196,19 @@ func (c *Ctx) method(pkg, typ, name string) *ssa.Function {
 }
 
 func (c *Ctx) methodOpt(pkg, typ, name string) *ssa.Function {
+	if f := c.methodByName(pkg, c.curType(pkg, typ), name); f != nil {
+		return f
+	}
+	if recv, nm, ok := c.curFunc(pkg, typ, name); ok {
+		if recv == "" {
+			return c.spkg(pkg).Func(nm)
+		}
+		return c.methodByName(pkg, recv, nm)
+	}
+	return nil
+}
+
+func (c *Ctx) methodByName(pkg, typ, name string) *ssa.Function {
 	obj := c.pkg(pkg).Types.Scope().Lookup(typ)
 	if obj == nil {
 		return nil
@@ -214,7 +238,7 @@ func (c *Ctx) methodOpt(pkg, typ, name string) *ssa.Function {
 }
 
 func (c *Ctx) typeObj(pkg, name string) *types.TypeName {
-	obj, _ := c.pkg(pkg).Types.Scope().Lookup(name).(*types.TypeName)
+	obj, _ := c.pkg(pkg).Types.Scope().Lookup(c.curType(pkg, name)).(*types.TypeName)
 	if obj == nil {
 		abort("anchor: type %s.%s not found", pkg, name)
 	}
@@ -222,7 +246,7 @@ func (c *Ctx) typeObj(pkg, name string) *types.TypeName {
 }
 
 func (c *Ctx) global(pkg, name string) *types.Var {
-	obj, _ := c.pkg(pkg).Types.Scope().Lookup(name).(*types.Var)
+	obj, _ := c.pkg(pkg).Types.Scope().Lookup(c.curVal(pkg, name)).(*types.Var)
 	if obj == nil {
 		abort("anchor: variable %s.%s not found", pkg, name)
 	}
@@ -230,7 +254,7 @@ func (c *Ctx) global(pkg, name string) *types.Var {
 }
 
 func (c *Ctx) constant(pkg, name string) constant.Value {
-	obj, _ := c.pkg(pkg).Types.Scope().Lookup(name).(*types.Const)
+	obj, _ := c.pkg(pkg).Types.Scope().Lookup(c.curVal(pkg, name)).(*types.Const)
 	if obj == nil {
 		abort("anchor: constant %s.%s not found", pkg, name)
 	}
@@ -318,6 +342,31 @@ func (c *Ctx) note(format string, a ...any) {
 
 // funcDecl returns the declaration of a package-level function or method.
 func (c *Ctx) funcDecl(pkg, recv, name string) *ast.FuncDecl {
+	if fd := c.funcDeclOpt(pkg, recv, name); fd != nil {
+		return fd
+	}
+	abort("anchor: declaration of %s.%s.%s not found", pkg, recv, name)
+	return nil
+}
+
+func (c *Ctx) funcDeclOpt(pkg, recv, name string) *ast.FuncDecl {
+	if fd := c.funcDeclByName(pkg, c.curTypeOr(pkg, recv), name); fd != nil {
+		return fd
+	}
+	if r, nm, ok := c.curFunc(pkg, recv, name); ok {
+		return c.funcDeclByName(pkg, r, nm)
+	}
+	return nil
+}
+
+func (c *Ctx) curTypeOr(pkg, recv string) string {
+	if recv == "" {
+		return ""
+	}
+	return c.curType(pkg, recv)
+}
+
+func (c *Ctx) funcDeclByName(pkg, recv, name string) *ast.FuncDecl {
 	p := c.pkg(pkg)
 	for _, f := range p.Syntax {
 		for _, d := range f.Decls {
@@ -339,7 +388,6 @@ func (c *Ctx) funcDecl(pkg, recv, name string) *ast.FuncDecl {
 			}
 		}
 	}
-	abort("anchor: declaration of %s.%s.%s not found", pkg, recv, name)
 	return nil
 }
 
